@@ -237,36 +237,93 @@ type wop struct {
 }
 
 var (
-	reID      = regexp.MustCompile(`/ID\s*\[\s*<[0-9A-Fa-f]*>\s*<[0-9A-Fa-f]*>\s*\]`)
-	reDate    = regexp.MustCompile(`\(D:[^)]*\)`)
-	reObj     = regexp.MustCompile(`(?s)(\d+) (\d+) obj\b(.*?)endobj`)
-	reTrailer = regexp.MustCompile(`(?s)trailer(.*?)startxref`)
-	reXMP     = regexp.MustCompile(`\d{4}-\d\d-\d\dT\d\d:\d\d:\d\d[^<"]*`)
+	reDate = regexp.MustCompile(`\(D:[^)]*\)`)
 )
 
-// normalise removes generated file identifiers and timestamps, and the order in which pdfcpu
-// happens to write the objects (it iterates over a Go map: the byte layout of two sequential runs
-// already differs): the objects are cut out, sorted by object number and hashed together with the
-// trailer dictionary; cross-reference offsets are dropped.
+// normalise maps an output PDF to a fingerprint that ignores what the property exempts (generated
+// file identifiers and timestamps) and what pdfcpu itself does not reproduce between two SEQUENTIAL
+// runs (it iterates over Go maps, so object numbers and the order of objects in the file vary): the
+// file is read back and the object graph is hashed from the trailer's Root and Info in depth-first
+// order with sorted dictionary keys, objects renumbered by first visit.
 func normalise(b []byte) string {
-	b = reID.ReplaceAll(b, []byte("/ID[]"))
-	b = reDate.ReplaceAll(b, []byte("(D:)"))
-	b = reXMP.ReplaceAll(b, []byte("T"))
-	ms := reObj.FindAllSubmatch(b, -1)
-	sort.SliceStable(ms, func(i, j int) bool {
-		a, _ := strconv.Atoi(string(ms[i][1]))
-		c, _ := strconv.Atoi(string(ms[j][1]))
-		return a < c
-	})
+	ctx, err := api.ReadContext(bytes.NewReader(b), plainConf())
+	if err != nil {
+		return "unreadable-" + errText(err)
+	}
 	h := sha256.New()
-	for _, m := range ms {
-		h.Write(m[0])
-		h.Write([]byte{0})
+	seen := map[int]int{}
+	var walk func(o types.Object, depth int)
+	dict := func(d types.Dict, depth int) {
+		keys := make([]string, 0, len(d))
+		for k := range d {
+			keys = append(keys, k)
+		}
+		sort.Strings(keys)
+		io.WriteString(h, "<<")
+		for _, k := range keys {
+			if k == "ID" || k == "CreationDate" || k == "ModDate" || k == "Length" {
+				continue
+			}
+			io.WriteString(h, "/"+k+" ")
+			walk(d[k], depth+1)
+		}
+		io.WriteString(h, ">>")
 	}
-	if m := reTrailer.FindSubmatch(b); m != nil {
-		h.Write(m[1])
+	walk = func(o types.Object, depth int) {
+		if depth > 200 {
+			io.WriteString(h, "DEEP")
+			return
+		}
+		switch x := o.(type) {
+		case nil:
+			io.WriteString(h, "null ")
+		case types.IndirectRef:
+			n := x.ObjectNumber.Value()
+			if id, ok := seen[n]; ok {
+				fmt.Fprintf(h, "R%d ", id)
+				return
+			}
+			seen[n] = len(seen)
+			fmt.Fprintf(h, "O%d{", seen[n])
+			t, err := ctx.Dereference(x)
+			if err != nil {
+				io.WriteString(h, "ERR")
+			} else {
+				walk(t, depth+1)
+			}
+			io.WriteString(h, "}")
+		case types.Dict:
+			dict(x, depth)
+		case types.StreamDict:
+			dict(x.Dict, depth)
+			if t := x.Dict.Type(); t != nil && *t == "Metadata" {
+				io.WriteString(h, "stream-metadata")
+			} else {
+				fmt.Fprintf(h, "stream%d:", len(x.Raw))
+				h.Write(x.Raw)
+			}
+		case types.ObjectStreamDict:
+			io.WriteString(h, "objstm")
+		case types.XRefStreamDict:
+			io.WriteString(h, "xrefstm")
+		case types.Array:
+			io.WriteString(h, "[")
+			for _, e := range x {
+				walk(e, depth+1)
+			}
+			io.WriteString(h, "]")
+		default:
+			s := reDate.ReplaceAllString(o.PDFString(), "(D:)")
+			io.WriteString(h, s+" ")
+		}
 	}
-	return fmt.Sprintf("%dobj:%s", len(ms), hex.EncodeToString(h.Sum(nil)[:8]))
+	if ctx.Root != nil {
+		walk(*ctx.Root, 0)
+	}
+	if ctx.Info != nil {
+		walk(*ctx.Info, 0)
+	}
+	return fmt.Sprintf("%dp/%dobj:%s", ctx.PageCount, len(seen), hex.EncodeToString(h.Sum(nil)[:8]))
 }
 
 func plainConf() *model.Configuration {
